@@ -1,7 +1,7 @@
 (* C11 — wrap_column is a limit, not a style switch. Statements only.
    The wrapper's search is a heuristic best-first search and is NOT modelled; the theorems below are
    supporting lemmas about the penalty and the fit test, the main clause is decided by the oracle. *)
-From PasfmtVerif Require Import Model.Penalty Proofs.PenaltyProofs Model.Pipeline Proofs.PipelineProofs.
+From PasfmtVerif Require Import Model.Penalty Proofs.PenaltyProofs Model.Pipeline Proofs.PipelineProofs Model.Measure Proofs.MeasureProofs.
 
 Theorem C11_penalty_antitone : forall W1 W2 c, W1 <= W2 -> total_penalty W2 c <= total_penalty W1 c.
 Proof. exact penalty_antitone. Qed.
@@ -21,3 +21,13 @@ Proof. exact ideal_search_width_stable. Qed.
 (* wrap_column / max_line_length is used at exactly the modelled sites (generated inventory) *)
 Theorem C11_width_sites : strings_eqb inv_max_line_length_uses expected_max_line_length_uses = true.
 Proof. exact inventory_max_line_length. Qed.
+
+(* the wrapper's measure of a line (get_token_line_length) is the column the reconstructor reaches *)
+Theorem C11_measured_fit_is_rendered_fit :
+  forall (rs : rsettings) (col : N) (tok : token) (f : fmt) (d : decision) (W : N),
+  rs_measurable rs = true ->
+  tok_measurable (tok, zero_start1 (apply_decision f d)) = true ->
+  token_line_length rs col d tok (f_sp f) <= W ->
+  rendered_col rs false col (tok, zero_start1 (apply_decision f d)) <= W.
+Proof. exact measured_fit_is_rendered_fit. Qed.
+
